@@ -183,6 +183,42 @@ def concCase (subject k : String) (args : List Sexp) : Option String := do
     pure (concObs ps (s.rets.map (fun r => s!"0/{errStrSorted r.errs}")) n)
   | _ => none
 
+/-! ### `(allowed (conc …) (obs (ph (r i)…) (res r…) (inv n) (maxc m)))`: evaluate the model's outcome
+    predicate on an observation of the implementation -/
+
+def resOf (s : String) : Option Res :=
+  if s.startsWith "!" then
+    let body := (s.drop 1).toString
+    (if body.isEmpty then some [] else (body.splitOn "+").mapM atomOf).map .panic
+  else
+    match s.splitOn "/" with
+    | [v, e] => do
+      let v ← v.toInt?
+      let atoms ← if e.isEmpty then some [] else (e.splitOn "+").mapM atomOf
+      pure (.ret v atoms)
+    | _ => none
+
+def obsOfSexp (args : List Sexp) : Option Obs := do
+  let ph ← (← section? "ph" args).mapM (fun p => match p with
+    | .list [a, b] => do pure ((← a.nat?), (← b.nat?))
+    | _ => none)
+  let res ← ((← section? "res" args).filterMap Sexp.atom?).mapM resOf
+  pure { phases := ph, results := res, inv := natArg "inv" args 0, maxc := natArg "maxc" args 0 }
+
+def allowedCase (subject k : String) (args : List Sexp) (o : Obs) : Option Bool := do
+  let script ← (← section? "script" args).mapM stepOf
+  let n := natArg "n" args 1
+  let g := natArg "callers" args 1
+  match subject with
+  | "once" => do pure (allowedOnce (← onceKind k) g script o)
+  | "limit" => pure (allowedLimit n g o)
+  | "oplimit" => pure (allowedOpLimit n g o)
+  | "lock" => pure (allowedLock g o)
+  | "oplaunch" | "opsignal" | "wlaunch" | "wsignal" | "wbackground" | "pbackground" | "xbackground" => pure (allowedBg g o)
+  | "opstartgroup" | "wstartgroup" => pure (allowedSg n g o)
+  | "opadd" => pure (allowedSg 1 g o)
+  | _ => none
+
 def handle (s : Sexp) : String :=
   match s with
   | .list (.atom "seq" :: .atom k :: args) =>
@@ -191,6 +227,14 @@ def handle (s : Sexp) : String :=
     | none => "bad-op"
   | .list (.atom "adtonce" :: args) => (adtCase args).getD "bad-op"
   | .list (.atom "conc" :: .atom subject :: .atom k :: args) => (concCase subject k args).getD "bad-op"
+  | .list [.atom "allowed", .list (.atom "conc" :: .atom subject :: .atom k :: args), .list (.atom "obs" :: oargs)] =>
+    match obsOfSexp oargs with
+    | none => "bad-obs"
+    | some o =>
+      match allowedCase subject k args o with
+      | some true => "ok"
+      | some false => "rejected"
+      | none => "bad-op"
   | _ => "bad-op"
 
 end FunModel.DrvC15
